@@ -146,6 +146,64 @@ Proof.
 Qed.
 Print Assumptions C10_cross_token_allowance_refuted.
 
+(* ---------------------------------------------------------------- calls made from contracts *)
+
+(* "directly or from contracts": one transaction whose contract code makes several ERC-20 calls from nested frames, some
+   of which fail.  Whatever ran below a frame that failed leaves nothing (state, logs, success mask) ... *)
+Theorem C10_failed_frame_changes_nothing : forall e kids s i,
+  exists i', exec_tree e (FNode false kids) s i = (s, [], 0, i').
+Proof. exact failed_frame_nothing. Qed.
+Print Assumptions C10_failed_frame_changes_nothing.
+
+(* ... a transaction whose top frame fails (VM error) changes nothing at all, and so does every failing step ... *)
+Theorem C10_failed_tx_changes_nothing : forall e s x s' o,
+  xstep e s x = (s', o) -> is_ok o = false -> s' = s.
+Proof. exact xstep_not_ok. Qed.
+Print Assumptions C10_failed_tx_changes_nothing.
+
+(* ... and every transaction is exactly the plain history of its surviving calls (those whose own frame and every
+   frame around it completed), for every tree shape: same final state, same logs in the same order.  So each call a
+   contract makes obeys C10_move_exact / C10_approve_exact / C10_allowance_law / C10_no_theft on the state its
+   surviving predecessors left. *)
+Theorem C10_tx_is_its_surviving_calls : forall e t s,
+  fst (xstep e s (XTx t)) = fst (run e s (survivors t)) /\
+  (forall s' r lg, xstep e s (XTx t) = (s', OOk r lg) -> lg = ok_logs (snd (run e s (survivors t)))).
+Proof. intros e t s. split; [apply xstep_tx_state|apply xstep_tx_logs]. Qed.
+Print Assumptions C10_tx_is_its_surviving_calls.
+
+(* histories of plain operations AND contract transactions end in the state of the flattened plain history, hence the
+   history laws (conservation against supply, burns only destroy, no negative balance, spent <= approved) hold for them *)
+Theorem C10_history_with_contracts_flattens : forall e xs s, fst (xrun e s xs) = fst (run e s (flatten xs)).
+Proof. exact xrun_flatten. Qed.
+Print Assumptions C10_history_with_contracts_flattens.
+
+Theorem C10_supply_history_with_contracts : forall e xs s L d s' xtr,
+  NoDup L -> (forall o, In o (flatten xs) -> incl (op_addrs o) L) ->
+  xrun e s xs = (s', xtr) ->
+  let tr := snd (run e s (flatten xs)) in
+  total s' d L - total s d L = supply s' d - supply s d - sumZ (env_delta d) tr /\
+  supply s' d = supply s d - sumZ (burned_by e d) tr + sumZ (env_delta d) tr /\
+  0 <= sumZ (burned_by e d) tr /\
+  locked s' = locked s.
+Proof. exact supply_history_x. Qed.
+Print Assumptions C10_supply_history_with_contracts.
+
+Theorem C10_spent_le_approved_with_contracts : forall e o sp, o <> sp ->
+  forall xs s s' xtr,
+  0 <= allow s o sp < MAXU256 -> forallb (not_unlimited_approve o sp) (flatten xs) = true ->
+  xrun e s xs = (s', xtr) ->
+  let tr := snd (run e s (flatten xs)) in
+  0 <= allow s' o sp < MAXU256 /\
+  sumZ (spent_by allT o sp) tr + allow s' o sp <= allow s o sp + sumZ (approved_by allT o sp) tr.
+Proof. exact allowance_history_x. Qed.
+Print Assumptions C10_spent_le_approved_with_contracts.
+
+Theorem C10_balances_nonneg_with_contracts : forall e xs s s' xtr,
+  (forall a d, 0 <= locked s a d) -> (forall a d, 0 <= bal s a d) ->
+  xrun e s xs = (s', xtr) -> forall a d, 0 <= bal s' a d.
+Proof. exact nonneg_history_x. Qed.
+Print Assumptions C10_balances_nonneg_with_contracts.
+
 (* ---------------------------------------------------------------- non-vacuity *)
 
 (* the witness history: 5 approves 6 for 8 units through token A (address 1000, denom 0); 6 then moves 7 units of
@@ -178,3 +236,13 @@ Example C10_example_burn_unlimited :
   let '(s2, o2) := evm_call x_env s1 6 1000 (BurnFrom 5 4) in
   is_ok o2 = true /\ supply s2 0 = 6 /\ bal s2 5 0 = 6 /\ allow s2 5 6 = MAXU256 /\ burned_by x_env 0 (Call 6 1000 (BurnFrom 5 4), o2) = 4.
 Proof. vm_compute. repeat split; reflexivity. Qed.
+
+(* a call tree: approve in the top frame; a spender's transferFrom (and a nested one) inside a frame that fails leave
+   neither moved coins nor a decremented allowance nor logs; the same method called again in completing frames works on the
+   untouched allowance: 3 of 8 spent, then 6 > 5 fails on its own *)
+Example C10_example_call_tree :
+  let '(s', o) := xstep x_env x_state (XTx x_tree) in
+  o = OOk (RUint (1 + 8)) [LApproval 1000 5 6 8; LTransfer 1000 5 9 3] /\
+  bal s' 5 0 = 7 /\ bal s' 9 0 = 3 /\ allow s' 5 6 = 5 /\
+  survivors x_tree = [Call 5 1000 (Approve 6 8); Call 6 1000 (TransferFrom 5 9 3); Call 6 1000 (TransferFrom 5 9 6)].
+Proof. exact x_tree_witness. Qed.
